@@ -142,10 +142,16 @@ func (s *gstate) genRule() Rule {
 		}
 		if s.chance("ann", 2) {
 			r.Anns = append(r.Anns, [2]string{s.pick("annk", annKeys), s.pick("annv", annVals)})
+			if s.chance("ann2", 3) {
+				r.Anns = setPair(r.Anns, s.pick("annk", annKeys), s.pick("annv", annVals))
+			}
 		}
 	}
 	if s.chance("lab", 2) {
 		r.Labels = append(r.Labels, [2]string{s.pick("labk", labelKeys), s.pick("labv", labelVals)})
+		if s.chance("lab2", 3) {
+			r.Labels = setPair(r.Labels, s.pick("labk", labelKeys), s.pick("labv", labelVals))
+		}
 	}
 	if s.chance("ctl", 5) {
 		r.Ctl = append(r.Ctl, s.pick("ctlv", ruleCtls))
@@ -676,10 +682,17 @@ func Gen(t *rapid.T, p Profile) History {
 			break
 		}
 		kind := s.weighted("ckind", map[string]int{
-			"rename": p.Weights["rename"], "rename-edit": p.Weights["rename-edit"], "edit": 10,
+			"rename": p.Weights["rename"], "rename-edit": p.Weights["rename-edit"], "trim": p.Weights["rule-trim"], "edit": 10,
 		}, nil)
 		msg := fmt.Sprintf("branch commit %d", ci+1)
 		switch kind {
+		case "trim":
+			s.ops = nil
+			if s.trim() {
+				h.Branch = append(h.Branch, Commit{Msg: msg, Ops: s.ops, Tree: s.snapshot()})
+			} else {
+				h.Branch = append(h.Branch, s.editCommit(p.Weights, fork, msg))
+			}
 		case "rename", "rename-edit":
 			free := s.freePaths()
 			var srcs []string
@@ -860,4 +873,101 @@ func (s *gstate) chain() []Commit {
 		}
 	}
 	return out
+}
+
+// trim changes ONE rule ONLY by deleting whole lines of it (nothing is added or
+// rewritten, nothing else in the file changes): the rule's last line(s) - last
+// key, last label / annotation entry, last line of a block expression - or a
+// line in its middle (control comment, a key followed by other keys, a
+// non-last map entry, first / middle line of a block expression). The rule is
+// drawn uniformly, so first, middle and last rules of a file are all hit.
+func (s *gstate) trim() bool {
+	type unit struct {
+		name  string
+		apply func(r *Rule)
+	}
+	unitsOf := func(r *Rule) []unit {
+		var us []unit
+		for i := range r.Ctl {
+			i := i
+			us = append(us, unit{"control-comment", func(r *Rule) { r.Ctl = append(append([]string{}, r.Ctl[:i]...), r.Ctl[i+1:]...) }})
+		}
+		if lines := strings.Split(r.Expr, "\n"); len(lines) > 1 {
+			for i := range lines {
+				i := i
+				us = append(us, unit{fmt.Sprintf("expr-line-%d-of-%d", i+1, len(lines)), func(r *Rule) {
+					l := strings.Split(r.Expr, "\n")
+					r.Expr = strings.Join(append(append([]string{}, l[:i]...), l[i+1:]...), "\n")
+					// keep the literal block form when one line is left, so that nothing is rewritten
+					r.ExprStyle, r.ExprFirst = 3, false
+				}})
+			}
+		}
+		if r.Alert && r.For != "" {
+			us = append(us, unit{"for", func(r *Rule) { r.For = "" }})
+		}
+		if r.Alert && r.Keep != "" {
+			us = append(us, unit{"keep_firing_for", func(r *Rule) { r.Keep = "" }})
+		}
+		for i := range r.Labels {
+			i := i
+			us = append(us, unit{fmt.Sprintf("label-%d-of-%d", i+1, len(r.Labels)), func(r *Rule) { r.Labels = append(append([][2]string{}, r.Labels[:i]...), r.Labels[i+1:]...) }})
+		}
+		if r.Alert {
+			for i := range r.Anns {
+				i := i
+				us = append(us, unit{fmt.Sprintf("annotation-%d-of-%d", i+1, len(r.Anns)), func(r *Rule) { r.Anns = append(append([][2]string{}, r.Anns[:i]...), r.Anns[i+1:]...) }})
+			}
+		}
+		return us
+	}
+	var cands []ruleRef
+	for _, rr := range s.allRules() {
+		if len(unitsOf(s.rule(rr))) > 0 {
+			cands = append(cands, rr)
+		}
+	}
+	if len(cands) == 0 {
+		return false
+	}
+	rr := cands[s.intn("trimrule", 0, len(cands)-1)]
+	r := s.rule(rr)
+	us := unitsOf(r)
+	// the last unit in rendering order is the rule's last line, unless the rule ends with
+	// its (single-line) expression or name: then no unit is "last"
+	lastIsTail := true
+	if strings.HasPrefix(us[len(us)-1].name, "control-comment") {
+		lastIsTail = false
+	}
+	idx := len(us) - 1
+	if !lastIsTail || (len(us) > 1 && s.chance("trimmid", 2)) {
+		idx = s.intn("trimunit", 0, max(0, len(us)-2))
+		if !lastIsTail {
+			idx = s.intn("trimunit2", 0, len(us)-1)
+		}
+	}
+	kind := "rule-trim-mid"
+	if lastIsTail && idx == len(us)-1 {
+		kind = "rule-trim-last"
+	}
+	// position of the rule in its file
+	all := s.tree[rr.path].Rules()
+	n := 0
+	for gi := 0; gi < rr.g; gi++ {
+		n += len(s.tree[rr.path].Groups[gi].Rules)
+	}
+	n += rr.i
+	pos := "middle"
+	switch {
+	case len(all) == 1:
+		pos = "only"
+	case n == 0:
+		pos = "first"
+	case n == len(all)-1:
+		pos = "last"
+	}
+	name := us[idx].name
+	us[idx].apply(r)
+	s.log("%s %s %q %s rule-position=%s", kind, rr.path, r.Name, name, pos)
+	return true
 }
